@@ -65,6 +65,13 @@ class Signs:
                     seen = True
                     r = s._slot_of(a.value, slot, fn, key, depth)
                     if r[0] != NONNEG: worst = r
+            if not seen:
+                # a module-level constant tuple (e.g. the all-zero statistics returned for an empty segment list)
+                mod = s.repo.mods.get(key.split("::")[0])
+                for a in (mod.body if mod is not None else []):
+                    tg = a.targets[0] if isinstance(a, ast.Assign) and len(a.targets) == 1 else a.target if isinstance(a, ast.AnnAssign) else None
+                    if isinstance(tg, ast.Name) and tg.id == v.id and isinstance(getattr(a, "value", None), ast.Tuple) and len(a.value.elts) > slot:
+                        return s.sign(a.value.elts[slot], fn, key, depth)
             return worst if seen else (ANY, v, key)
         return (ANY, v, key)
 
